@@ -23,7 +23,17 @@ namespace {
     int next_name = 0, next_site = 1;
     explicit Gen(Rng &r) : rng(r) {}
     std::string nm(const char *p) { return std::string(p) + std::to_string(next_name++); }
-    std::string lit_int() { return std::to_string(rng.range(0, 99)); }
+    // plain, signed and constant-folded integer literals (the optimizer stores the folded value in the tree)
+    std::string lit_int() {
+      const std::string n = std::to_string(rng.range(0, 99));
+      switch (rng.below(8)) {
+      case 0: return "-" + n;
+      case 1: return "+" + n;
+      case 2: return "~" + n;
+      case 3: return "(" + n + " + " + std::to_string(rng.range(1, 9)) + ")";
+      default: return n;
+      }
+    }
     std::string lit_str() {
       static const char *w[] = {"abc", "x", "", "hello world", "q1"};
       return std::string("\"") + w[rng.below(5)] + "\"";
@@ -76,7 +86,7 @@ namespace {
       }
       case 7: {
         const std::string d = nm("d");
-        out += "var " + d + " = " + lit_int() + "." + std::to_string(rng.range(0, 9)) + "; " + d + " += a; t(to_int(" + d + ")); ";
+        out += "var " + d + " = " + (rng.chance(300) ? "-" : "") + std::to_string(rng.range(0, 99)) + "." + std::to_string(rng.range(0, 9)) + "; " + d + " += a; t(to_int(" + d + ")); ";
         ret_expr = d;
         return d;
       }
